@@ -215,7 +215,7 @@ def audit(ctx, prop_files, log):
         # proofs in props files must be 'exact <lemma>.' only
         for m in re.finditer(r'Proof\.(.*?)Qed\.', src_nc, re.S):
             body = m.group(1).strip()
-            if not re.match(r'^exact\s+[\w@\.\(\) ]+\.$', body):
+            if not re.match(r'^exact\s+[^;]+\.$', body, re.S) or re.search(r'\.\s+\S', body):
                 ctx.broken.append(Broken('audit', 'non-trivial proof script in %s: %s' % (pf, body[:80])))
         names += th
     ctx.theorems = names
